@@ -19,6 +19,7 @@ package certloader
 import (
 	"bytes"
 	"crypto/x509"
+	"errors"
 	"fmt"
 	"io"
 	"io/ioutil"
@@ -58,6 +59,9 @@ func LoadAnyCerts(paths []string) (any AnyCerts, err error) {
 
 // Parse one or more PGP certificates from the given possibly-armored blob
 func parsePGP(blob []byte) (openpgp.EntityList, error) {
+	if len(blob) == 0 {
+		return nil, errors.New("certificate file is empty")
+	}
 	reader := io.Reader(bytes.NewReader(blob))
 	if blob[0] == '-' {
 		block, err := armor.Decode(reader)
